@@ -5,6 +5,7 @@ package main
 import (
 	"context"
 	"fmt"
+	"math"
 	"regexp"
 	"strconv"
 	"strings"
@@ -103,6 +104,14 @@ func newWz() (*wzEngine, error) {
 
 func (e *wzEngine) close() { e.rt.Close(e.ctx) }
 
+func showF64(f float64) string {
+	if f == math.Trunc(f) && math.Abs(f) <= 0xffffffff && !(f == 0 && math.Signbit(f)) {
+		return strconv.FormatInt(int64(f), 10)
+	}
+	return fmt.Sprintf("f:%016x", math.Float64bits(f))
+}
+
+// wzVal spells a result value the way js/exec.js does.
 func wzVal(t api.ValueType, v uint64) string {
 	switch t {
 	case api.ValueTypeI32:
@@ -110,9 +119,9 @@ func wzVal(t api.ValueType, v uint64) string {
 	case api.ValueTypeI64:
 		return strconv.FormatInt(int64(v), 10)
 	case api.ValueTypeF32:
-		return fmt.Sprintf("f32:%08x", uint32(v))
+		return showF64(float64(math.Float32frombits(uint32(v))))
 	case api.ValueTypeF64:
-		return fmt.Sprintf("f64:%016x", v)
+		return showF64(math.Float64frombits(v))
 	}
 	return fmt.Sprintf("?%x", v)
 }
